@@ -1,7 +1,7 @@
 #!/bin/bash
 # selftest/run.sh <property-id> [outfile]
 # Both-ways self-test of the rules of one property (thorough tier):
-#   every selftest/<id>/fire-<RULE>-*.patch and every filed seeded defect of that property whose meta lists a firing check
+#   every selftest/<id>/fire-<RULE>-*.patch and every filed seeded defect that a check of this property reports (meta.json)
 #   must make the named rule (or, for seeds, any listed check) report a VIOLATION on a scratch copy;
 #   every selftest/<id>/benign-*.patch must leave all checks of the property silent.
 # Scratch copies live under $TMPDIR (default /tmp) and are removed at once. Exit 0 = self-test ok, 2 = the CHECKER is wrong
@@ -18,9 +18,9 @@ jobs=()
 for p in selftest/$id/*.patch; do [ -f "$p" ] && jobs+=("$p"); done
 for d in seeded/*/; do
   [ -f "$d/meta.json" ] || continue
-  prop=$(python3 -c "import json,sys;m=json.load(open(sys.argv[1]));print(m.get('property',''), ' '.join(m.get('checks_that_fire',[])))" "$d/meta.json")
-  set -- $prop
-  if [ "${1:-}" = "$id" ] && [ $# -gt 1 ]; then jobs+=("$d/patch.diff"); fi
+  # a filed seed belongs to the self-test of every property one of whose checks reports it (not only the property it was written for)
+  hit=$(python3 -c "import json,sys;m=json.load(open(sys.argv[1]));print(int(any(w.startswith(sys.argv[2]+'.') for w in m.get('checks_that_fire',[]))))" "$d/meta.json" "$id")
+  if [ "$hit" = 1 ]; then jobs+=("$d/patch.diff"); fi
 done
 run_one() {
   patch="$1"; id="$2"; work="$3"; REPO="$4"
